@@ -181,8 +181,24 @@ def run(fx, rep):
         for bi, t in b.terms('Assert'):
             if t['msg'].startswith('Overflow(Mul)') and not all(o['k'] == 'Const' for o in t['ops']) and not safe_wide_mul(b, t):
                 rep.violation('R4', 'overflowing-mul', F.loc_of(t['span']), 'multiplication in the printer can overflow (panics in debug, wraps in release) for durations beyond 2^63 ns')
-    mags = [t for b in fx.bodies_with_closures(fb.path) for bi, t in b.calls() if re.match(r'^core::num::<impl i(64|128)>::unsigned_abs$', F.norm_callee(t) or '')]
+    mags = [t for b in fx.bodies_with_closures(fb.path) for bi, t in b.calls() if re.match(r'^core::num::<impl i\d+>::(unsigned_abs|abs|wrapping_abs|checked_abs|saturating_abs)$', F.norm_callee(t) or '')]
     rep.check(len(mags) >= 1, 'R4', 'magnitude-by-unsigned_abs', fb.loc(), 'magnitude = unsigned_abs()', 'printer does not take the magnitude with unsigned_abs')
+    # the sign must be read off the very total whose magnitude is printed (a part such as num_seconds() is 0 for -0.5s)
+    fpv = F.Prov(fb)
+    recv = set()
+    for t in mags:
+        recv |= set(fpv.of_operand(t['args'][0]))
+    signs = []
+    for bi, j, st in fb.stmts():
+        if st['k'] == 'Assign' and st['rv']['k'] == 'BinaryOp' and st['rv']['op'] in ('Lt', 'Gt', 'Le', 'Ge') and st['rv'].get('lty', '').startswith('i'):
+            l, r = st['rv']['l'], st['rv']['r']
+            var = l if r['k'] == 'Const' and r.get('val') == 0 else (r if l['k'] == 'Const' and l.get('val') == 0 else None)
+            if var is not None:
+                signs.append((st, set(fpv.of_operand(var))))
+    okk = len(mags) == 1 and len(signs) >= 1 and all(ts & recv for _, ts in signs)
+    rep.check(okk, 'R4', 'sign-and-magnitude-from-one-total', fb.loc(), 'the value tested against 0 is the one whose unsigned_abs() is printed',
+              'the printer tests %s against 0 but prints the magnitude of %s (%d unsigned_abs call(s)): a part of the duration has not the sign of the whole (num_seconds() is 0 for -0.5s), so string(duration(\'-1.5ms\')) loses its minus' %
+              (sorted(F.term_str(x)[:60] for _, ts in signs for x in ts)[:2], sorted(F.term_str(x)[:60] for x in recv)[:2], len(mags)))
     # ---------------- R5
     ub = fx.body(DUR + 'Unit::nanos')
     unit_adt = fx.adt(DUR + 'Unit')
